@@ -526,6 +526,85 @@ template <class T> struct Maker<PhQ::ConstitutiveModel::CompressibleNewtonianFlu
                "static const vrt::Registrar reg_base{table_base, %d};" % len(entries)]
         return "\n".join(out) + "\n"
 
+    def free_function_calls(self, T):
+        """(instance name, call template with %s placeholders for the arguments, [C++ argument types], constexpr?) for every
+        free non-operator function template; a parameter of base type DimensionlessScalar<NumericType> is expanded over
+        every dimensionless scalar quantity, OtherNumericType over double and int"""
+        out = []
+        dimless = [q["name"] for q in self.cat.quantities if q["unit"] is None and q["shape"] == "Scalar"]
+        for f in self.api.functions:
+            if f["ns"] == "PhQ" and f["name"] == "Print":
+                continue   # covered by the hand-written Base ops
+            variants = [[]]
+            ok = True
+            for p in f["params"]:
+                t = (p["type"] or "").replace("PhQ::", "").replace(" ", "")
+                if p["mutable_ref"]:
+                    ok = False; break
+                if t == "DimensionlessScalar<NumericType>":
+                    choices = ["PhQ::%s<%s>" % (q, T) for q in dimless]
+                elif t == "OtherNumericType":
+                    choices = ["double", "int"]
+                else:
+                    r = self.resolve(p["type"], T, None)
+                    if r is None:
+                        ok = False; break
+                    choices = [r]
+                variants = [v + [c] for v in variants for c in choices]
+            if not ok:
+                self.skipped.append((f["ns"], f["name"], "free function: unsupported parameter"))
+                continue
+            for v in variants:
+                short = ",".join(re.sub(r"^PhQ::", "", x).replace("<%s>" % T, "") for x in v)
+                name = "Free|%s::%s<%s>(%s)" % (f["ns"], f["name"], TSHORT[T], short.replace(" ", ""))
+                out.append((name, "%s::%s(%s)" % (f["ns"], f["name"], ", ".join(["%s"] * len(v))), v, f["constexpr"]))
+        return out
+
+    def render_free_functions(self, Ts):
+        out = []
+        for T in Ts:
+            cases, entries = [], []
+            for name, call, types, _ in self.free_function_calls(T):
+                if not self.admit(name):
+                    continue
+                k = len(cases)
+                pre = " ".join("const auto a%d = vrt::make<%s>(c);" % (i, t) for i, t in enumerate(types))
+                cases.append("    case %d: { %s auto r = [&] { vrt::Count k; return %s; }(); vrt::consume(c, r); break; }" % (
+                    k, pre, call % tuple("a%d" % i for i in range(len(types)))))
+                entries.append('  {"%s", &ops_freefn_%s, %d, 0},' % (name, TSHORT[T], k))
+                self.instances.append(name)
+            if cases:
+                out.append("static void ops_freefn_%s(vrt::Ctx& c, int which) {\n  switch (which) {\n%s\n    default: break;\n  }\n}" % (TSHORT[T], "\n".join(cases)))
+                out.append("static const vrt::OpEntry table_freefn_%s[] = {\n%s\n};" % (TSHORT[T], "\n".join(entries)))
+                out.append("static const vrt::Registrar reg_freefn_%s{table_freefn_%s, %d};" % (TSHORT[T], TSHORT[T], len(entries)))
+        return "\n".join(out) + "\n" if out else ""
+
+    def render_free_function_literals(self, rng, Ts):
+        """C19: a literal-operand namespace-scope object for every constexpr free function template"""
+        decls, entries = [], []
+        for T in Ts:
+            for name, call, types, is_constexpr in self.free_function_calls(T):
+                if not is_constexpr:
+                    continue
+                iname = name.replace("Free|", "Free|literal:")
+                if self.only is not None and iname not in self.only:
+                    continue
+                r = Rng((rng.u64() ^ hash_name(iname)) & ((1 << 64) - 1))
+                args = [self.lit_template(t, T, r) for t in types]
+                if any(a is None for a in args):
+                    continue
+                tmpl = call % tuple(args)
+                uid = "freefn_%s_%d" % (TSHORT[T], len(entries))
+                decls.append("static const vrt::ClitMark clit_b_%s{'B', \"%s\"};\nstatic const auto clit_%s = %s;\nstatic const vrt::ClitMark clit_e_%s{'E', \"%s\"};\n"
+                             "static vrt::ClitHash clit_obj_%s() { return vrt::hash_of(clit_%s); }\nstatic vrt::ClitHash clit_run_%s() { return vrt::hash_of(%s); }"
+                             % (uid, iname, uid, self.lit_render(tmpl, False), uid, iname, uid, uid, uid, self.lit_render(tmpl, True)))
+                entries.append('  {"%s", &clit_obj_%s, &clit_run_%s},' % (iname, uid, uid))
+                self.instances.append(iname)
+        if not entries:
+            return ""
+        return ("\n".join(decls) + "\nstatic const vrt::ClitEntry clit_table_freefn[] = {\n%s\n};\nstatic const vrt::ClitRegistrar clit_reg_freefn{clit_table_freefn, %d};\n"
+                % ("\n".join(entries), len(entries)))
+
     def render_model_dispatch(self, Ts):
         """virtual calls through const ConstitutiveModel& on every concrete model"""
         if "ConstitutiveModel" not in self.api.classes or not self.model_classes:
@@ -745,6 +824,13 @@ template <class T> struct Maker<PhQ::ConstitutiveModel::CompressibleNewtonianFlu
         text = self.render_base()
         if "vrt::OpEntry" in text:
             frags.append((text.count("    case "), text))
+        text = self.render_free_functions(NUMERIC)
+        if "vrt::OpEntry" in text:
+            frags.append((text.count("    case "), text))
+        if const_literals is not None:
+            text = self.render_free_function_literals(const_literals, NUMERIC)
+            if text:
+                frags.append((text.count("clit_obj_"), text))
         text = self.render_model_dispatch(NUMERIC)
         if "vrt::OpEntry" in text:
             for b in re.split(r"(?=static void ops_virt_)", text):
